@@ -124,7 +124,9 @@ def from_zeep(S, ir, t, o, tq):
         ba = {a['name']: a for a in attrs}
         out = {'__class__': cname}
         fl = gen.all_fields(ir, cname)
-        if not hasattr(o, '__values__') and not isinstance(o, dict) and len(fl) == 1 and 'attr' not in fl[0][1] \
+        xt = getattr(o, '_xsd_type', None)
+        foreign = xt is not None and getattr(xt, 'qname', None) is not None and str(xt.qname) != tq
+        if (foreign or (not hasattr(o, '__values__') and not isinstance(o, dict))) and len(fl) == 1 and 'attr' not in fl[0][1] \
                 and 'xmldata' not in fl[0][1]:
             # zeep unwraps types with a single member recursively
             fn, ft = fl[0]
